@@ -19,13 +19,16 @@ DRIVE_TYPES = ["document", "presentation", "spreadsheets"]
 def is_amp_url(url):
     splitted = safe_urlsplit(url)
 
-    if splitted.hostname.endswith(".ampproject.org"):
+    # NOTE: a url can have no hostname at all
+    hostname = splitted.hostname or ""
+
+    if hostname.endswith(".ampproject.org"):
         return True
 
-    if splitted.hostname.startswith("amp-"):
+    if hostname.startswith("amp-"):
         return True
 
-    if splitted.hostname.startswith("amp."):
+    if hostname.startswith("amp."):
         return True
 
     if "/amp/" in splitted.path:
